@@ -144,7 +144,7 @@ def names_bytes():
 
 secs = st.one_of(st.integers(0, 86399), st.sampled_from([0, 1, 59, 60, 3599, 3600, 65535, 65536, 86399]))
 power = st.one_of(st.integers(0, 65535), st.sampled_from([0, 1, 110, 219, 220, 255, 256, 2600, 65535]))
-REMOTE_ALPHA = "ABCDEFGHIJKLMNOPQRSTUVWXYZ0123456789"
+REMOTE_ALPHA = "ABCDEFGHIJKLMNOPQRSTUVWXYZ0123456789abcdefghijklmnopqrstuvwxyz"
 
 
 def fields_for(code):
